@@ -80,6 +80,12 @@ def run(prog, x, ap):
             regs.append(ap.trace(regs[ins[1]]))
         elif k == 'outer':
             regs.append(ap.outer(regs[ins[1]], regs[ins[2]]))
+        elif k == 'powr':
+            regs.append(regs[ins[1]] ** regs[ins[2]])
+        elif k in ('eigh', 'qr', 'cholesky', 'svd'):
+            regs.append(getattr(ap, k)(regs[ins[1]]))
+        elif k == 'tget':
+            regs.append(regs[ins[1]][ins[2]])
         else:
             raise ValueError(k)
     return [regs[r] for r in prog['ret']]
@@ -90,12 +96,13 @@ def creates_reg(ins):
 
 
 class Gen:
-    def __init__(self, rng, N, scalar_only=False, buffers=True, linalg=True, rational=False):
+    def __init__(self, rng, N, scalar_only=False, buffers=True, linalg=True, rational=False, facts=True, traced_pow=False):
         self.rng, self.N = rng, N
         self.instrs = []
         self.kind = []          # per register: 's' scalar | ('v', n) | ('m', n, m) | 'bufv' | 'bufm'
         self.scalar_only, self.buffers, self.linalg = scalar_only, buffers, linalg
         self.rational = rational
+        self.facts, self.traced_pow = facts, traced_pow
         self.buf_filled = {}
 
     def emit(self, ins, kind=None):
@@ -224,6 +231,47 @@ class Gen:
         s0 = self.emit(['sumaxis', P, self.rng.choice([0, 1, -1])], ('v', n))
         return self.emit(['sum', s0], 's')
 
+    def fact_block(self):
+        """symmetric positive definite 2x2 or 3x3 matrix built from scalars, then eigh / qr / cholesky; uniquely defined outputs only"""
+        n = self.rng.choice([2, 2, 3])
+        M = self.emit(['zeros2', n, n], 'bufm')
+        offd = {}
+        for i in range(n):
+            for j in range(i, n):
+                t = self.emit(['un', 'sin', self.pick_scalar()], 's')
+                if i == j:
+                    sq = self.emit(['un', 'square', t], 's')
+                    e = self.emit(['bin', 'add', ['r', sq], ['c', 2.0 + 2.5 * i]], 's')
+                    self.emit(['set2', M, i, i, ['r', e]])
+                else:
+                    e = self.emit(['bin', 'mul', ['r', t], ['c', 0.5]], 's')
+                    self.emit(['set2', M, i, j, ['r', e]]); self.emit(['set2', M, j, i, ['r', e]])
+        kind = self.rng.choice(['eigh', 'eigh', 'cholesky', 'qr'])
+        if kind == 'eigh':
+            lq = self.emit(['eigh', M], 'tuple')
+            lam = self.emit(['tget', lq, 0], ('v', n))
+            w = self.emit(['bin', 'mul', ['r', lam], ['a', [self.rng.choice([0.5, -1.0, 2.0, 1.5]) for _ in range(n)]]], ('v', n))
+            s1 = self.emit(['sum', w], 's')
+            if self.rng.random() < 0.5:
+                # Q is defined up to the sign of its columns: use the sign-invariant Q diag(c) Q^T
+                Q = self.emit(['tget', lq, 1], ('m', n, n))
+                QT = self.emit(['T', Q], ('m', n, n))
+                D1 = self.emit(['bin', 'mul', ['r', Q], ['a', [self.rng.choice([1.0, 2.0, -0.5]) for _ in range(n)]]], ('m', n, n))
+                P = self.emit(['dot', D1, QT], ('m', n, n))
+                W = self.emit(['bin', 'mul', ['r', P], ['a', [[self.rng.choice([0.5, 1.0, -1.0]) for _ in range(n)] for _ in range(n)]]], ('m', n, n))
+                s2 = self.emit(['sum', W], 's')
+                return self.emit(['bin', 'add', ['r', s1], ['r', s2]], 's')
+            return s1
+        if kind == 'cholesky':
+            L = self.emit(['cholesky', M], ('m', n, n))
+            W = self.emit(['bin', 'mul', ['r', L], ['a', [[self.rng.choice([0.5, 1.0, -1.0]) for _ in range(n)] for _ in range(n)]]], ('m', n, n))
+            return self.emit(['sum', W], 's')
+        qr = self.emit(['qr', M], 'tuple')
+        R = self.emit(['tget', qr, 1], ('m', n, n))
+        R2 = self.emit(['un', 'square', R], ('m', n, n))         # |R_ij| is unique, the signs of the rows of R are a convention
+        W = self.emit(['bin', 'mul', ['r', R2], ['a', [[self.rng.choice([0.5, 1.0, -1.0]) for _ in range(n)] for _ in range(n)]]], ('m', n, n))
+        return self.emit(['sum', W], 's')
+
     def build(self, length, nout=1):
         for i in range(self.N):
             if self.rng.random() < 0.8:
@@ -237,6 +285,14 @@ class Gen:
                 outs.append(self.vector_block())
             elif not self.scalar_only and self.linalg and r < 0.4:
                 outs.append(self.matrix_block())
+            elif not self.scalar_only and self.linalg and self.facts and r < 0.46:
+                outs.append(self.fact_block())
+            elif self.traced_pow and r < 0.52:
+                a = self.pick_scalar(); b = self.pick_scalar()
+                sq = self.emit(['un', 'square', a], 's')
+                base = self.emit(['bin', 'add', ['r', sq], ['c', 1.0]], 's')
+                ex = self.emit(['un', 'sin', b], 's')
+                self.emit(['powr', base, ex], 's')
             else:
                 self.scalar_step()
         # outputs: combine block results and late scalars so that everything contributes
@@ -251,11 +307,11 @@ class Gen:
         return dict(N=self.N, instrs=self.instrs, ret=ret)
 
 
-def gen_prog(rng, ap, N=None, length=None, nout=1, scalar_only=False, buffers=True, linalg=True, tries=50, rational=False):
+def gen_prog(rng, ap, N=None, length=None, nout=1, scalar_only=False, buffers=True, linalg=True, tries=50, rational=False, facts=True, traced_pow=False):
     """generate a program whose values stay moderate at a few test points"""
     for _ in range(tries):
         n = N or rng.randint(1, 4)
-        g = Gen(rng, n, scalar_only=scalar_only or rational, buffers=buffers, linalg=linalg, rational=rational)
+        g = Gen(rng, n, scalar_only=scalar_only or rational, buffers=buffers, linalg=linalg, rational=rational, facts=facts, traced_pow=traced_pow)
         prog = g.build(length or rng.randint(4, 22), nout=nout)
         ok = True
         for _t in range(3):
